@@ -229,7 +229,7 @@ def save_performance_midi(
                     )
                 ),
                 dtype=int,
-            )
+            ).reshape(-1, 2)
 
             timepoints = []
             for tr in track_events.keys():
